@@ -620,6 +620,11 @@ def run_history(ctx, case, with_sample: bool = True) -> None:
         status, cur_db = parse_file()
         if cur_db is None:
             raise HarnessBug('initial file broken')
+        if model:
+            # a file written by someone else (other formatting) reads as what it says
+            problem, _ = check_state(model, None, None)
+            if problem is not None:
+                fail(f'{problem[0]}/foreign_file', f'reading a pre-existing file: {problem[1]}', -1)
         for step, op in enumerate(ops):
             kind = op[0]
             if kind == 'litter':
